@@ -76,14 +76,42 @@ package cache
 // variants that silently take the repository's configured user must not be used.
 //@ ghost var requestUser *IdentityCache
 
+// lastMessage / lastTitle: the text handed to the last text-carrying edit (ghost record: the API layer is
+// checked to hand over the requested text, sanitised the documented way)
+//@ ghost var lastMessage string
+//@ ghost var lastTitle string
 //@ func (*BugCache).AddCommentRaw
+//@ func (*BugCache).EditCreateCommentRaw
+//@ func (*BugCache).EditCommentRaw
+//@   props C18 C11
+//@   opt locks
+//@   opt post_unguarded
+//@   requires [authored-by-request-user] requestUser != nil ==> typeof(author) == type[*IdentityCache] && author.(*IdentityCache) == requestUser
+//@   requires [not-held@locks] c != nil && sync.rwheld[&c.mu] == 0
+//@   modifies bugOps, repoWrites, entityNotifies, lastMessage
+//@   opt trusted_frame
+//@   stable entityNotifies
+//@   defines [text-recorded] lastMessage == message
+//@   defines bugOps >= old(bugOps) && (err == nil ==> bugOps == old(bugOps) + 1)
+//@   ensures [sub-cache-notified] err == nil ==> entityNotifies == old(entityNotifies) + 1
+//@   ensures [lock-balanced] forall m *sync.RWMutex :: { sync.rwheld[m] } sync.rwheld[m] == old(sync.rwheld[m])
+//@ func (*BugCache).SetTitleRaw
+//@   props C18 C11
+//@   opt locks
+//@   opt post_unguarded
+//@   requires [authored-by-request-user] requestUser != nil ==> typeof(author) == type[*IdentityCache] && author.(*IdentityCache) == requestUser
+//@   requires [not-held@locks] c != nil && sync.rwheld[&c.mu] == 0
+//@   modifies bugOps, repoWrites, entityNotifies, lastTitle
+//@   opt trusted_frame
+//@   stable entityNotifies
+//@   defines [text-recorded] lastTitle == title
+//@   defines bugOps >= old(bugOps) && (err == nil ==> bugOps == old(bugOps) + 1)
+//@   ensures [sub-cache-notified] err == nil ==> entityNotifies == old(entityNotifies) + 1
+//@   ensures [lock-balanced] forall m *sync.RWMutex :: { sync.rwheld[m] } sync.rwheld[m] == old(sync.rwheld[m])
 //@ func (*BugCache).ChangeLabelsRaw
 //@ func (*BugCache).ForceChangeLabelsRaw
 //@ func (*BugCache).OpenRaw
 //@ func (*BugCache).CloseRaw
-//@ func (*BugCache).SetTitleRaw
-//@ func (*BugCache).EditCreateCommentRaw
-//@ func (*BugCache).EditCommentRaw
 //@ func (*BugCache).SetMetadataRaw
 //@   props C18 C11
 //@   opt locks
@@ -612,6 +640,8 @@ package cache
 //@   opt interior_ok
 //@   opt post_unguarded
 //@   stable entityNotifies
+//@   modifies repoWrites, entityNotifies
+//@   opt trusted_frame
 //@   requires [not-held@locks] e != nil && sync.rwheld[&e.mu] == 0
 //@   ensures [lock-balanced] forall m *sync.RWMutex :: { sync.rwheld[m] } sync.rwheld[m] == old(sync.rwheld[m])
 //@   ensures [sub-cache-notified] result == nil ==> entityNotifies == old(entityNotifies) + 1
